@@ -90,6 +90,15 @@ def with_alarm(seconds, fn, *a, **kw):
         signal.signal(signal.SIGALRM, old_r)
 
 
+def with_alarm_retry(seconds, fn, *a, **kw):
+    """with_alarm, but slow is not the same as stuck: a call that exceeds the limit is tried once more with a limit ten
+    times as generous (fn must be repeatable) before CaseTimeout is raised"""
+    try:
+        return with_alarm(seconds, fn, *a, **kw)
+    except CaseTimeout:
+        return with_alarm(seconds * 10, fn, *a, **kw)
+
+
 # --------------------------------------------------------------------------------------------
 # Lean side
 # --------------------------------------------------------------------------------------------
